@@ -26,11 +26,12 @@ def gen(rng, tier):
     n = 60 if tier == "quick" else 800
     cases = []
     for i in range(n):
-        c = EG.gen_case(rng, enum=EG.DET_ENUMS[i % 5], small=True)
+        c = EG.gen_case(rng, enum=EG.ALL_ENUMS[i % 7], small=True)
         g = c["grammar"]
-        g["kind"] = "cfg"
-        g.setdefault("max_depth", 3)
-        g.setdefault("min_var", 1)
+        if c["enum"] in EG.DET_ENUMS:
+            g["kind"] = "cfg"
+            g.setdefault("max_depth", 3)
+            g.setdefault("min_var", 1)
         dsl = {"prims": g["prims"], "request": g["request"], "const_types": [], "forbidden": []}
         pool = []
         for b in D.BASES:
@@ -58,6 +59,10 @@ def to_model(case, io):
     if not usable(io) or io.get("skip"):
         return []
     fuel = EG.fuel_of(case["grammar"])
+    if "utable" in io:
+        if "rejected" in case:
+            return [(13, [io["utable"], io["starts"], fuel, case["rejected"], io["out"]])]
+        return [(14, [io["utable"], io["starts"], fuel, [[m[0], m[2]] for m in case["merges"]], io["out"]])]
     if "rejected" in case:
         return [(3, [io["table"], io["start"], fuel, case["rejected"], io["out"]])]
     return [(4, [io["table"], io["start"], fuel, [[m[0], m[2]] for m in case["merges"]], io["out"]])]
@@ -114,9 +119,15 @@ def shrink(case):
             yield dict(case, merges=case["merges"][:i] + case["merges"][i + 1:])
 
 
+HS_FAMILY = ("hs", "hs_bucket", "hs_u", "hs_bucket_u")
+
+
 def classify(case, io, mo):
     if case["enum"] == "bs" and isinstance(io, dict) and io.get("hang"):
         return "c12_bee_search_never_returns"
+    if case["enum"] in ("hs_u", "hs_bucket_u") and "merges" in case and isinstance(io, dict) \
+            and str(io.get("crash", "")).startswith("IndexError") and "start_query" in str(io.get("tb", "")):
+        return "c12_heap_search_merge_bookkeeping"
     if not isinstance(io, dict) or "ended" not in io or mo is None:
         return None
     if case["enum"] == "bs" and "merges" in case and mo["nodup"] == 1 and mo["members"] == 1 and mo["no_merged_after"] == 0:
@@ -129,13 +140,15 @@ def classify(case, io, mo):
     if "rejected" in case and stopped and valid_prefix and mo["missing"]:
         if case["enum"] == "cd":
             return "c12_cd_filter_loses_programs"
-        if case["enum"] in ("hs", "hs_bucket"):
+        if case["enum"] in HS_FAMILY:
             return "c12_heap_search_filter_loses_programs"
     if "merges" in case and stopped and mo["nodup"] == 1 and mo["members"] == 1:
-        if case["enum"] in ("hs", "hs_bucket") and (mo["no_merged_after"] == 0 or mo["missing"]):
+        if case["enum"] in HS_FAMILY and (mo["no_merged_after"] == 0 or mo["missing"]):
             return "c12_heap_search_merge_bookkeeping"
-        if case["enum"] == "cd" and mo["no_merged_after"] == 1 and mo["missing"]:
+        if case["enum"] == "cd" and (mo["no_merged_after"] == 0 or mo["missing"]):
             return "c12_cd_merge_loses_programs"
+        if case["enum"] == "bps" and mo["no_merged_after"] == 0 and not mo["missing"]:
+            return "c12_beap_search_merge_yields_containing"
     return None
 
 
